@@ -11,6 +11,9 @@ structure ImState where
   crs : Nat
   deriving Repr, DecidableEq
 
+/-- `north_up(im)`: positive x pixel size, negative y pixel size, no rotation / shear terms (exact zero tests) -/
+def northUpOf (a b d e : Rat) : Bool := decide (0 < a) && decide (e < 0) && decide (b = 0) && decide (d = 0)
+
 /-- `WarpedVRT(im, crs=c)` without transform arguments re-projects to north-up in CRS `c` -/
 def warp (_im : ImState) (c : Nat) : ImState := ⟨true, c⟩
 
